@@ -85,13 +85,13 @@ theorem declared_name_coordinate_is_its_token {d : D} (hwf : WFD d) (hn : NoPare
 open PycModel.View PycModel.FullExpr PycModel.DeclSkel PycModel.DeclParse PycModel.BuildDecl PycModel.TypeModify in
 /-- the `Decl` built for an init-declarator carries, at the end of its type chain, a `TypeDecl` whose
 name and coordinate are those of the declarator's `ID` token -/
-theorem decl_typedecl_names_its_token (sp : DeclSpec) (ico : Option Coord) (names : List String) (it : IDc) (hwf : WFI it) (n : Nat) :
+theorem decl_typedecl_names_its_token (sp : DeclSpec) (ico : Option Coord) (names : List String) (it : IDc) (hwf : WFI it) (hn : NoParen it.d) (n : Nat) :
     ∃ ty, declOut sp ico names (it.di n) =
         mk .Decl (it.di n).coord [.str (dName it.d), .list sp.qual, .list sp.alignment, .list sp.storage, .list sp.function,
           chainVal (it.d.chain n) (mk .TypeDecl (tc (n + starsNtoks (dStars it.d))) [.str (dName it.d), .list sp.qual, .none, ty]),
           (it.di n).init, .none] ∧
       it.d.flat[starsNtoks (dStars it.d)]? = some ("ID", dName it.d) := by
-  obtain ⟨h1, h2⟩ := declared_name_coordinate_is_its_token hwf.wfd hwf.noParen n
+  obtain ⟨h1, h2⟩ := declared_name_coordinate_is_its_token hwf.wfd hn n
   refine ⟨identType ico names, ?_, h2⟩
   have hdi : (it.di n).tco = tc (n + starsNtoks (dStars it.d)) := h1
   show declPost _ _ _ _ _ _ (chainVal (it.di n).ms (tdFull (it.di n).x (it.di n).tco sp.qual (identType ico names))) _ = _
